@@ -118,7 +118,7 @@ func genOptConf1(rng *rand.Rand, v6 bool) (string, []string) {
 			}
 			return "searchdomains", a
 		case 2:
-			u := []string{"tftp://boot.example.org/pxe/file.efi", "http://[2001:db8::5]/ipxe.efi", "https://boot.example.org:8443/a/b?params=console%3DttyS0", "http://b.example/x?params=quiet", "ftp://10.0.0.9/f"}[rng.Intn(5)]
+			u := []string{"tftp://boot.example.org/pxe/file.efi", "http://[2001:db8::5]/ipxe.efi", "https://boot.example.org:8443/a/b?params=console%3DttyS0", "http://b.example/x?params=quiet", "ftp://10.0.0.9/f", "http://boot.example.org/boot.php?mac=${mac}&uuid=${uuid}"}[rng.Intn(6)]
 			return "nbp", []string{u}
 		default:
 			return "sleep", []string{fmt.Sprintf("%dms", 1+rng.Intn(15))}
@@ -175,7 +175,7 @@ func genOptConf1(rng *rand.Rand, v6 bool) (string, []string) {
 		}
 		return "autoconfigure", []string{[]string{"0", "1", "DoNotAutoConfigure", "AutoConfigure"}[rng.Intn(4)]}
 	case 9:
-		u := []string{"tftp://10.0.0.5/pxelinux.0", "tftp://boot.example.org/pxe/file.efi", "http://10.0.0.5/ipxe.efi", "https://boot.example.org:8443/a/b", "ftp://10.0.0.9/f", "tftp://h/p?params=x"}[rng.Intn(6)]
+		u := []string{"tftp://10.0.0.5/pxelinux.0", "tftp://boot.example.org/pxe/file.efi", "http://10.0.0.5/ipxe.efi", "https://boot.example.org:8443/a/b", "ftp://10.0.0.9/f", "tftp://h/p?params=x", "http://10.0.0.5/boot.php?mac=${mac}&uuid=${uuid}", "http://10.0.0.5/${net0/mac}/boot.ipxe"}[rng.Intn(8)]
 		return "nbp", []string{u}
 	default:
 		return "sleep", []string{fmt.Sprintf("%dms", 1+rng.Intn(15))}
@@ -301,6 +301,20 @@ func (optEngine) Run(ctx *fw.Ctx, cs any) {
 			j.V6 = chain
 		} else {
 			j.V4 = chain
+		}
+		if uint64(c.Seed)%4 == 2 {
+			// the same chain written as a configuration file and loaded with config.Load: the arguments a
+			// plugin gets are the words written in the file
+			var sb strings.Builder
+			if c.V6 {
+				sb.WriteString("server6:\n  listen: '[::1]:5547'\n  plugins:\n")
+			} else {
+				sb.WriteString("server4:\n  listen: '127.0.0.1:6767'\n  plugins:\n")
+			}
+			for _, p := range chain {
+				fmt.Fprintf(&sb, "    - %s: '%s'\n", p.Name, strings.Join(p.Args, " "))
+			}
+			j.YAML = sb.String()
 		}
 		for _, r := range reqs {
 			if c.V6 {
